@@ -644,6 +644,10 @@ def run(ctx):
         if r6_instances(ctx, repo, cname) and not any(i.outcome == "VIOLATED" for i in ctx.instances[first:]):
             # the general-m schema (R1) may not recognise a new spelling of the products; the identity itself is then
             # established for the enumerated instance sizes only, which is what the verdict says
+            waived = ctx.extra.setdefault("coverage_waived", [])
+            for r_ in ("R1", "R2"):
+                if r_ not in waived and any(i.outcome == "INCONCLUSIVE" and i.rule in ("R1", "R2") for i in ctx.instances[first:]):
+                    waived.append(r_)
             for i in ctx.instances[first:]:
                 if i.outcome == "INCONCLUSIVE" and i.rule in ("R1", "R2"):
                     i.outcome = "HOLDS"
